@@ -130,9 +130,13 @@ func worker(readyc <-chan *ScheduledJob, donec chan<- jobResult) {
 		currentJob  *ScheduledJob
 		exitCleanly bool
 	)
+	verifWID := verifWorkerID()
 	defer func() {
 		if exitCleanly {
 			return
+		}
+		if verifOn {
+			verifWorker(verifWID, "die", currentJob, nil)
 		}
 		donec <- jobResult{Job: currentJob, Err: errors.New("job exited unexpectedly")}
 		go worker(readyc, donec)
@@ -141,17 +145,35 @@ func worker(readyc <-chan *ScheduledJob, donec chan<- jobResult) {
 	for j := range readyc {
 		res := jobResult{Job: j}
 		currentJob = j
+		if verifOn {
+			verifWorker(verifWID, "recv", j, nil)
+		}
 
 		if err := j.ctx.Err(); err != nil {
 			// Don't run if context already cancelled.
 			res.Err = err
+			if verifOn {
+				verifWorker(verifWID, "skipctx", j, err)
+			}
 		} else if j.invalid {
 			// Don't run if marked as invalid.
 			res.Err = errJobInvalid
+			if verifOn {
+				verifWorker(verifWID, "skipinvalid", j, nil)
+			}
 		} else {
+			if verifOn {
+				verifWorker(verifWID, "start", j, nil)
+			}
 			res.Err = j.run(j.ctx)
+			if verifOn {
+				verifWorker(verifWID, "end", j, res.Err)
+			}
 		}
 		currentJob = nil
+		if verifOn {
+			verifWorker(verifWID, "post", j, res.Err)
+		}
 		donec <- res
 	}
 	exitCleanly = true
@@ -186,6 +208,9 @@ type Scheduler struct {
 	// If true when a job fails, directs the scheduler to record its failure,
 	// invalidate all jobs that depend on the failed job, and keep running.
 	continueOnError bool
+
+	// Verification hooks; empty without the "verif" build tag.
+	verif verifSched
 }
 
 // Config stores parameters the scheduler should run with and is the
@@ -209,6 +234,10 @@ type Config struct {
 	// record its failure, invalidate all jobs that depend on the failed job,
 	// and keep running.
 	ContinueOnError bool
+
+	// Verif configures the verification hooks; empty without the
+	// "verif" build tag.
+	Verif verifConfig
 }
 
 // New starts a scheduler with a fixed number of goroutines.
@@ -263,6 +292,9 @@ func (c Config) New() *Scheduler {
 		concurrency:     c.Concurrency,
 		continueOnError: c.ContinueOnError,
 	}
+	if verifOn {
+		sched.verif.init(sched, c)
+	}
 
 	// We lie to the caller about the number of goroutines. Spawn one
 	// extra goroutine for the Scheduler Loop.
@@ -302,6 +334,9 @@ type ScheduledJob struct {
 	err       error           // the job error, if encountered when the job ran
 	invalid   bool            // whether the job is marked invalid and should not run
 
+	// Verification hooks; empty without the "verif" build tag.
+	verif verifJob
+
 	// NOTE: DO NOT add methods to ScheduledJob. There's danger of using
 	// methods that read or write internal state outside the Scheduler.run
 	// function which, as discussed above, introduces a data race.
@@ -322,7 +357,13 @@ func (s *Scheduler) Enqueue(ctx context.Context, j Job) *ScheduledJob {
 		run:  j.Run,
 		deps: j.Dependencies,
 	}
+	if verifOn {
+		s.verif.send(pj)
+	}
 	s.enqueuec <- pj // panics if closed
+	if verifOn {
+		s.verif.sent(pj)
+	}
 	return pj
 }
 
@@ -388,6 +429,10 @@ func (s *Scheduler) run(emitter Emitter, freq time.Duration) {
 	// is set to nil, we don't expect new Enqueue requests.
 	enqueuec := s.enqueuec
 
+	if verifOn {
+		defer func() { s.verif.loop("exit", nil, s.err, pending, ongoing, waiting, ready.Len(), enqueuec == nil) }()
+	}
+
 	for {
 		// If there's at least one job ready to be executed, grab it.
 		// If no jobs are ready, this leaves `readyc` as nil. Trying
@@ -404,6 +449,9 @@ func (s *Scheduler) run(emitter Emitter, freq time.Duration) {
 		} else {
 			readyc = nil
 		}
+		if verifOn {
+			s.verif.yield("select")
+		}
 
 		select {
 		case readyc <- next:
@@ -412,6 +460,9 @@ func (s *Scheduler) run(emitter Emitter, freq time.Duration) {
 			ready.Remove(nextEl)
 
 			ongoing++
+			if verifOn {
+				s.verif.loop("disp", next, nil, pending, ongoing, waiting, ready.Len(), enqueuec == nil)
+			}
 
 		case job, ok := <-enqueuec:
 			// Wait was called and the enqueue channel was closed.
@@ -419,6 +470,9 @@ func (s *Scheduler) run(emitter Emitter, freq time.Duration) {
 			// again. (A nil channel never resolves.)
 			if !ok {
 				enqueuec = nil
+				if verifOn {
+					s.verif.loop("closed", nil, nil, pending, ongoing, waiting, ready.Len(), enqueuec == nil)
+				}
 				break
 			}
 
@@ -446,6 +500,9 @@ func (s *Scheduler) run(emitter Emitter, freq time.Duration) {
 			} else {
 				waiting++
 			}
+			if verifOn {
+				s.verif.loop("enq", job, nil, pending, ongoing, waiting, ready.Len(), enqueuec == nil)
+			}
 
 		case res := <-s.donec:
 			job := res.Job
@@ -461,6 +518,9 @@ func (s *Scheduler) run(emitter Emitter, freq time.Duration) {
 				// failed.
 				if !s.continueOnError {
 					s.err = err
+					if verifOn {
+						s.verif.loop("res", job, res.Err, pending, ongoing, waiting, ready.Len(), enqueuec == nil)
+					}
 					return
 				}
 				// With continueOnError, mark invalid directly dependent jobs,
@@ -483,6 +543,9 @@ func (s *Scheduler) run(emitter Emitter, freq time.Duration) {
 					ready.PushBack(consumer)
 				}
 			}
+			if verifOn {
+				s.verif.loop("res", job, res.Err, pending, ongoing, waiting, ready.Len(), enqueuec == nil)
+			}
 
 		case <-tickerC:
 			// If emitter is nil, tickerC will be a nil channel that
@@ -498,6 +561,9 @@ func (s *Scheduler) run(emitter Emitter, freq time.Duration) {
 					Concurrency: s.concurrency,
 				},
 			)
+			if verifOn {
+				s.verif.tick(State{Pending: pending, Ready: ready.Len(), Waiting: waiting, IdleWorkers: idleWorkers(s.concurrency, ongoing), Concurrency: s.concurrency})
+			}
 		}
 
 		// If all enqueued jobs have been finished and no new enqueues
@@ -517,8 +583,14 @@ func (s *Scheduler) run(emitter Emitter, freq time.Duration) {
 // No new jobs may be enqueued once Wait is called.
 func (s *Scheduler) Wait(ctx context.Context) error {
 	close(s.enqueuec) // disallow new Enqueues
+	if verifOn {
+		s.verif.closed()
+	}
 	select {
 	case <-ctx.Done():
+		if verifOn {
+			s.verif.ret("ctx", ctx.Err())
+		}
 		return ctx.Err()
 	case <-s.finishedc: // wait for Scheduler Loop to exit
 		err := s.err
@@ -528,6 +600,9 @@ func (s *Scheduler) Wait(ctx context.Context) error {
 		// out at the same time the job finished.
 		if err == nil {
 			err = ctx.Err()
+		}
+		if verifOn {
+			s.verif.ret("fin", err)
 		}
 		return err
 	}
